@@ -658,11 +658,49 @@ def _stmt_insensitive(s: ast.stmt) -> Tuple[bool, str]:
     return False, f"`{norm(s)[:50]}`"
 
 
+def _unstable_hash_classes(ctx: Context) -> Dict[str, str]:
+    """Classes of the STABLE table whose __hash__ is (no longer) process independent: hash of a str / name / id-string."""
+    out: Dict[str, str] = {}
+    for m in ctx.repo.program_modules():
+        if not m.rel.startswith(("workload/", "workers/", "schedulers/", "utils")):
+            continue
+        for cls in [c for c in ast.walk(m.tree) if isinstance(c, ast.ClassDef) and c.name in STABLE]:
+            ms = methods(cls)
+            h = ms.get("__hash__")
+            if h is None:
+                continue
+            exprs = [r.value for r in ast.walk(h) if isinstance(r, ast.Return) and r.value is not None]
+            todo = list(exprs)
+            seen = 0
+            while todo and seen < 8:
+                e = todo.pop()
+                seen += 1
+                if is_self_attr(e):
+                    defs = [a.value for a in ast.walk(cls) if isinstance(a, ast.Assign) and any(is_self_attr(t, e.attr) for t in a.targets)]
+                    if e.attr in ms and any(isinstance(d, ast.Name) and d.id in ("property", "cached_property") for d in ms[e.attr].decorator_list):
+                        defs += [r.value for r in ast.walk(ms[e.attr]) if isinstance(r, ast.Return) and r.value is not None]
+                    todo += defs
+                elif isinstance(e, ast.Call) and call_name(e) == "hash" and e.args:
+                    todo.append(e.args[0])
+                elif isinstance(e, ast.Call) and call_name(e) in ("str", "repr", "format"):
+                    out[cls.name] = f"{m.rel}: __hash__ derives from `{norm(e)[:40]}` (a str: salted per process)"
+                elif isinstance(e, (ast.JoinedStr,)) or (isinstance(e, ast.Constant) and isinstance(e.value, str)):
+                    out[cls.name] = f"{m.rel}: __hash__ derives from a string"
+                elif isinstance(e, ast.Tuple):
+                    todo += list(e.elts)
+                elif isinstance(e, ast.Attribute) and e.attr in ("name", "unique_name", "_name"):
+                    out[cls.name] = f"{m.rel}: __hash__ derives from `{norm(e)}` (a str)"
+    return out
+
+
 def r4_hash_order(ctx: Context) -> None:
     ctx.rule("C09.R4", "no iteration over a set with process-dependent element hashes (str, Job, Resource, unknown) reaches "
                        "an order-sensitive consumer")
     n_sets = 0
     n_iter = 0
+    unstable = _unstable_hash_classes(ctx)
+    for cname, why in unstable.items():
+        ctx.note(f"element class {cname} is not hash-stable: {why}")
     for m in modules(ctx):
         unconf = m.rel in UNCONFIRMABLE_FILES
         funcs = [n for n in ast.walk(m.tree) if isinstance(n, (ast.FunctionDef, ast.AsyncFunctionDef))]
@@ -704,7 +742,7 @@ def r4_hash_order(ctx: Context) -> None:
                 n_iter += 1
                 key = f"{qualname(fn)}|iterates `{norm(it)[:50]}` ({et})"
                 where = loc(it)
-                if et in STABLE or et == "empty":
+                if (et in STABLE and et not in unstable) or et == "empty":
                     ctx.ok("C09.R4", key, where, f"element hash is process independent ({et})")
                     continue
                 ok, why = _consumer_insensitive(site)
